@@ -500,6 +500,11 @@ func (t *Table) Put(input *types.PutItemInput) (map[string]*types.Item, error) {
 		}
 	}
 
+	// validate the index keys before writing anything: a failing put must leave no trace
+	if err := t.validateIndexKeys(item); err != nil {
+		return nil, err
+	}
+
 	t.setItem(key, item)
 
 	for _, index := range t.Indexes {
@@ -510,6 +515,16 @@ func (t *Table) Put(input *types.PutItemInput) (map[string]*types.Item, error) {
 	}
 
 	return item, nil
+}
+
+func (t *Table) validateIndexKeys(item map[string]*types.Item) error {
+	for _, index := range t.Indexes {
+		if _, err := index.keySchema.GetKey(t.AttributesDef, item); err != nil {
+			return types.NewError("ValidationException", err.Error(), nil)
+		}
+	}
+
+	return nil
 }
 
 func (t *Table) interpreterUpdate(input interpreter.UpdateInput) error {
@@ -561,7 +576,9 @@ func (t *Table) Update(input *types.UpdateItemInput) (map[string]*types.Item, er
 		item = copyItem(input.Key)
 	}
 
-	oldItem := copyItem(item)
+	oldItem := item
+	// the update is applied to a copy, the stored item only changes if everything succeeds
+	item = copyItem(item)
 
 	err = t.interpreterUpdate(interpreter.UpdateInput{
 		TableName:  t.Name,
@@ -571,6 +588,10 @@ func (t *Table) Update(input *types.UpdateItemInput) (map[string]*types.Item, er
 		Aliases:    input.ExpressionAttributeNames,
 	})
 	if err != nil {
+		return nil, err
+	}
+
+	if err := t.validateIndexKeys(item); err != nil {
 		return nil, err
 	}
 
